@@ -118,6 +118,12 @@ def _rs(spec):
     return spec["name"].split("|")[1]
 
 
+def _rk(spec):
+    """rank class of the response (outcome label): every latent direction observed or not"""
+    R = np.array(spec["R"], dtype=np.float64)
+    return "fullrank" if np.linalg.matrix_rank(R) == R.shape[1] else "rankdef"
+
+
 def _scale(*a):
     return max([1.] + [float(np.abs(x).max(initial=0.)) for x in a])
 
@@ -237,7 +243,7 @@ def _run_wfc_cl(case):
         out = _cov_check(r["L"], T, drv, what, det)
         if out is not None:
             return out
-    return ok(nontrivial=bool(np.abs(ref.R).max() > 0), outcome="wfc_cl|S=%s|%s|%s" % (case["S"], label, _rs(spec)), stats=stats, detail=det)
+    return ok(nontrivial=bool(np.abs(ref.R).max() > 0), outcome="wfc_cl|S=%s|%s|%s" % (case["S"], label, _rk(spec)), stats=stats, detail=det)
 
 
 def _okl_cl(b, ns, tape, lh=None):
@@ -275,7 +281,7 @@ def _run_map_cl(case):
     out = _mean_check(means, ref, "map_cl", det)
     if out is not None:
         return out
-    return ok(nontrivial=bool(np.abs(ref.R).max() > 0), outcome="map_cl|%s" % _rs(spec), stats=dict(unit_vectors=ref.nd), detail=det)
+    return ok(nontrivial=bool(np.abs(ref.R).max() > 0), outcome="map_cl|%s" % _rk(spec), stats=dict(unit_vectors=ref.nd), detail=det)
 
 
 def _vi_check(r, ref, ns, drv, det):
@@ -344,7 +350,7 @@ def _run_mgvi_cl(case):
     out = _vi_check(r, ref, ns, "mgvi_cl", det)
     if out is not None:
         return out
-    return ok(nontrivial=bool(np.abs(ref.R).max() > 0), outcome="mgvi_cl|ns=%d|%s" % (ns, _rs(spec)),
+    return ok(nontrivial=bool(np.abs(ref.R).max() > 0), outcome="mgvi_cl|ns=%d|%s" % (ns, _rk(spec)),
               stats=dict(unit_vectors=r["n"]), detail=det)
 
 
@@ -463,7 +469,7 @@ def _run_wf_re_samples(case):
             return out
         if i % 2 == 1 and not np.array_equal(Lr[i], -Lr[i - 1]):
             return bad("%s: mirrored residual is not the exact negative" % drv, finding_key="%s|mirror-not-negative" % drv, detail=det)
-    return ok(nontrivial=bool(np.abs(ref.R).max() > 0), outcome="%s|%s" % (drv, _rs(spec)), stats=dict(unit_vectors=r["n"]), detail=det)
+    return ok(nontrivial=bool(np.abs(ref.R).max() > 0), outcome="%s|%s" % (drv, _rk(spec)), stats=dict(unit_vectors=r["n"]), detail=det)
 
 
 def _okl_re(b, ns, mode, jit):
@@ -500,7 +506,7 @@ def _run_map_re(case):
     out = _mean_check(means, ref, "map_re", det)
     if out is not None:
         return out
-    return ok(nontrivial=bool(np.abs(ref.R).max() > 0), outcome="map_re|%s" % _rs(spec), stats=dict(unit_vectors=ref.nd), detail=det)
+    return ok(nontrivial=bool(np.abs(ref.R).max() > 0), outcome="map_re|%s" % _rk(spec), stats=dict(unit_vectors=ref.nd), detail=det)
 
 
 def _run_mgvi_re(case):
@@ -525,7 +531,7 @@ def _run_mgvi_re(case):
     out = _vi_check(r, ref, ns, drv, det)
     if out is not None:
         return out
-    return ok(nontrivial=bool(np.abs(ref.R).max() > 0), outcome="%s|ns=%d|%s" % (drv, ns, _rs(spec)),
+    return ok(nontrivial=bool(np.abs(ref.R).max() > 0), outcome="%s|ns=%d|%s" % (drv, ns, _rk(spec)),
               stats=dict(unit_vectors=r["n"]), detail=det)
 
 
@@ -534,6 +540,6 @@ def finish(run):
             "wf_re|signal-space|linearised", "wf_re|data-space|samples", "map_re|", "mgvi_re|ns=2", "geovi_re|ns=1"]
     have = list(run.outcomes)
     missing = [x for x in need if not any(h.startswith(x) for h in have)]
-    if missing and not run.violations:
+    if missing and not run.violations and not run.extra.get("filtered_by"):
         run.violations.append((dict(vacuity=missing), bad("no passing case of class %s" % missing, finding_key="harness|vacuous-class")))
     return dict(rank_deficient_cases=sum(v for o, v in run.outcomes.items() if o.endswith("rankdef")))
